@@ -57,7 +57,9 @@ add("C13", "fault_enumeration", "byte-conservation law checked on every recorded
 
 add("C02", "exploration", "byte-conservation law over the recorded event chunks (slice at running offset, pinned width) plus icontract post-conditions on the serialisation leaf functions",
     "Every accepted input of the C01 workloads and value-corrupted variants in warn mode are re-encoded event by event and compared "
-    "with the input slices; signed, 64-bit, named-range and enum-backed leaves are counted in the evidence.",
+    "with the input slices; signed, 64-bit, named-range and enum-backed leaves are counted in the evidence. Collected event lists are "
+    "re-encoded again later (after further decodes); hostile scenes run in between. Thorough: the repository's own test suite runs with a "
+    "monitor around every decode it makes (look-ahead, round trip, held events).",
     "Trusted: pinned widths. The contract layer is supplementary and reports its evaluation counts.", "DESIGN.md 4/C02")
 add("C06", "exploration", "outcome-class monitor at the API boundary under random, mutated, mis-typed and exhaustive small-alphabet inputs, keyed by failure mechanism",
     "Tens of thousands (thorough: millions) of hostile decodes; any escaping exception outside the documented classes is a violation "
